@@ -35,6 +35,12 @@ FLOATS = [0.5, -0.0, 0.0, 1e-05, 1.5e-07, 1e22, 1e300, 123456789.125, -2.5, 1e16
 BOOLS = [True, False, "true", "false", "TRUE", "False", 0, 1, "0", "1"]
 
 
+# (slot, value) atoms for the pairwise-interaction space: equal-but-different values (True/1/1.0/"1"/"True"), shared strings in different roles
+PAIR_ATOMS = [("B", True), ("B", False), ("N", 1), ("N", 0), ("N", 1.0), ("N", 0.0), ("N", -1), ("S", "1"), ("S", "True"), ("S", "1.0"), ("S", "a"),
+              ("LN", [1, 0, 1.0]), ("LN", [0.0, 2]), ("LB", [True, False]), ("LB", [1, 0]), ("LS", ["1", "True", "a"]), ("P", "/abs/a"), ("P", "/abs/1"),
+              ("LL", [[1], [1.0, 0]]), ("DT", "Float"), ("Metadata", {"a": "1", "True": "a"})]
+
+
 def BOUND(tier):
     return ("strings <=2 symbols over 12 symbols + 20 named; 9 ints, 17 floats, 10 boolean forms; nested lists <=3; source and API builds"
             if tier == "quick" else "strings <=3 symbols (1884) + named; numbers; booleans; nested lists <=3; source, API-raw and API-clean builds")
@@ -58,6 +64,9 @@ def cases(tier):
         yield ("bools", mode, tier)
         yield ("lists", mode, tier)
         yield ("refs", mode, tier)
+    for mode in ("api", "src"):
+        for first in range(len(PAIR_ATOMS)):
+            yield ("pairs", mode, first)
     if tier == "thorough":
         yield ("clean-api", tier)
     for mi in range(len(c11.MODELS)):
@@ -222,6 +231,8 @@ def _what(tag):
                                  "non-ascii" if "non-ascii" in feats else "blank-edge" if "blank" in feats else "plain")
     if k.startswith("number"):
         return k.split(":")[1]
+    if k.startswith("pair"):
+        return "value-combination"
     return k.split(":")[0]
 
 
@@ -319,6 +330,22 @@ def run(case):
                     yield "metadata", [("r", {"N": 1, "Metadata": md})]
                 for dt in ("Float", "Integer"):
                     yield "datatype:name", [("r", {"DT": dt})]
+            n, sample = _run_specs(specs(), mode, work, viols, outcomes)
+        elif case[0] == "pairs":
+            mode, first = case[1], case[2]
+
+            def specs():
+                a = PAIR_ATOMS[first]
+                for b in PAIR_ATOMS:
+                    if b[0] == a[0]:
+                        # same slot: two commands
+                        yield "pair:two-commands", [("r1", {a[0]: a[1]}), ("r2", {b[0]: b[1]})]
+                    else:
+                        yield "pair:one-command", [("r", {a[0]: a[1], b[0]: b[1]})]
+                        yield "pair:two-commands", [("r1", {a[0]: a[1]}), ("r2", {b[0]: b[1], "R": ("ref", "r1")})]
+                    for c in PAIR_ATOMS[::4]:
+                        if len({a[0], b[0], c[0]}) == 3:
+                            yield "pair:triple", [("r", {a[0]: a[1], b[0]: b[1], c[0]: c[1]})]
             n, sample = _run_specs(specs(), mode, work, viols, outcomes)
         elif case[0] == "refs":
             mode = case[1]
